@@ -57,3 +57,96 @@ Fixpoint ref_objects_from {A} (eqb : A -> A -> bool) (seen : list A) (names : li
 
 Definition ref_objects {A} (eqb : A -> A -> bool) (names : list A) : list nat :=
   ref_objects_from eqb [] names.
+
+(** ** One process, several loads of one namespace file *)
+(** What the property prescribes for a history of imports, reloads, edits of the source,
+    damage to the cache file and [importlib.invalidate_caches()], on abstract states: a
+    source is a version number with its stats; a COMPLETE cache file is described by the
+    version whose code it holds and the stats its header claims (32-bit fields); any
+    other file (absent, truncated, other magic) is [None].  Every (re)load makes the
+    definitions of the CURRENT version visible; it takes them from the cache exactly when
+    the header claims the current stats; and (bytecode writing on) it leaves the cache of
+    the current version behind. *)
+Fixpoint le_val (b : list N) : N :=
+  match b with [] => 0%N | x :: r => (x + 256 * le_val r)%N end.
+
+(** [file] starts with [magic] and two complete 32-bit little-endian fields holding
+    [mtime] and [size] *)
+Definition header_matches (magic : list N) (mtime size : Z) (file : list N) : Prop :=
+  firstn 4 file = magic /\ (12 <= length file)%nat
+  /\ Z.of_N (le_val (firstn 4 (skipn 4 file))) = mtime
+  /\ Z.of_N (le_val (firstn 4 (skipn 8 file))) = size.
+
+Record rcache := mkrc { rc_ver : N; rc_mtime : Z; rc_size : Z }.
+
+Record rstate := mkrs {
+  rs_ver : N; rs_mtime : Z; rs_size : Z;    (* the source file *)
+  rs_cache : option rcache;
+  rs_loaded : bool;                         (* the module is in sys.modules *)
+  rs_visible : N                            (* whose definitions the Vars hold; 0: none *)
+}.
+
+Inductive rstep :=
+| RImport | RReload | RInvalidate
+| REdit (ver : N) (mtime size : Z)
+| RBreak                      (* cache deleted, cut anywhere, or given another magic *)
+| RHdrMtime (delta : Z)       (* mtime field of the header := current mtime + delta *)
+| RHdrSize (delta : Z)
+| RSkip.
+
+Inductive robs :=
+| RLoad (visible : N) (from_cache cache_valid_after : bool)
+| RAlready (visible : N)
+| RNotLoaded.
+
+Definition claims (st : rstate) (rc : rcache) : bool :=
+  in_range (rs_mtime st) && in_range (rs_size st)
+  && Z.eqb (rc_mtime rc mod 4294967296) (rs_mtime st) && Z.eqb (rc_size rc mod 4294967296) (rs_size st).
+
+Definition rc_valid (st : rstate) : bool :=
+  match rs_cache st with Some rc => claims st rc | None => false end.
+
+(** "mtime and size identify the content": a complete file that claims the current stats
+    holds the current version *)
+Definition rc_honest (st : rstate) : bool :=
+  match rs_cache st with
+  | Some rc => if claims st rc then N.eqb (rc_ver rc) (rs_ver st) else true
+  | None => true
+  end.
+
+Definition ref_load (dwb : bool) (st : rstate) : robs * rstate :=
+  let valid := rc_valid st in
+  let cache' := if valid || dwb then rs_cache st
+                else Some (mkrc (rs_ver st) (rs_mtime st) (rs_size st)) in
+  let st' := mkrs (rs_ver st) (rs_mtime st) (rs_size st) cache' true (rs_ver st) in
+  (RLoad (rs_ver st) valid (rc_valid st'), st').
+
+Definition with_rcache (st : rstate) (c : option rcache) : rstate :=
+  mkrs (rs_ver st) (rs_mtime st) (rs_size st) c (rs_loaded st) (rs_visible st).
+
+(** one step: the observation (None: not a load), whether the premise held, the state *)
+Definition ref_step (dwb : bool) (st : rstate) (s : rstep) : option robs * bool * rstate :=
+  match s with
+  | RImport =>
+      if rs_loaded st then (Some (RAlready (rs_visible st)), true, st)
+      else let (o, st') := ref_load dwb st in (Some o, rc_honest st, st')
+  | RReload =>
+      if rs_loaded st then let (o, st') := ref_load dwb st in (Some o, rc_honest st, st')
+      else (Some RNotLoaded, true, st)
+  | RInvalidate | RSkip => (None, true, st)
+  | REdit v m s => (None, true, mkrs v m s (rs_cache st) (rs_loaded st) (rs_visible st))
+  | RBreak => (None, true, with_rcache st None)
+  | RHdrMtime d =>
+      (None, true, with_rcache st (option_map (fun rc => mkrc (rc_ver rc) (rs_mtime st + d) (rc_size rc)) (rs_cache st)))
+  | RHdrSize d =>
+      (None, true, with_rcache st (option_map (fun rc => mkrc (rc_ver rc) (rc_mtime rc) (rs_size st + d)) (rs_cache st)))
+  end.
+
+Fixpoint ref_hist (dwb : bool) (st : rstate) (steps : list rstep) : list robs * bool * rstate :=
+  match steps with
+  | [] => ([], true, st)
+  | s :: r =>
+      let '(o, h, st1) := ref_step dwb st s in
+      let '(os, hs, st2) := ref_hist dwb st1 r in
+      (match o with Some x => x :: os | None => os end, h && hs, st2)
+  end.
